@@ -453,6 +453,15 @@ impl<'p> CoroutinePool<'p> {
             if CANCEL_TASKS.contains(&task_id) {
                 _ = CANCEL_TASKS.remove(&task_id);
                 warn!("Cancel task:{} successfully !", task_id);
+                // the task will never produce a result: settle whoever waits for it
+                if self.no_waits.contains(&task_id) {
+                    _ = self.no_waits.remove(&task_id);
+                    return;
+                }
+                _ = self
+                    .results
+                    .insert(task_id, Err("The task was cancelled before it started"));
+                self.notify(task_id);
                 return;
             }
             if let Some(co) = SchedulableCoroutine::current() {
